@@ -39,7 +39,11 @@ Seg(k, q, n) == [k |-> k, q |-> q, n |-> n]
 Pat(pred, chain) == [pred |-> pred, chain |-> chain]
 Lf(m, form) == [m |-> m, form |-> form, pats |-> IF form = "stub0" THEN <<>> ELSE <<Pat({0, 1}, <<Seg("val", "none", 0)>>)>>]
 Fix(l) == IF l.form = "stub0" THEN [l EXCEPT !.form = "stub"] ELSE l
+LfQ(m, form, n) == [m |-> m, form |-> form, pats |-> <<Pat({0, 1}, <<Seg("val", "n", n)>>)>>]
+\* explicitly counted clauses, including "exactly no calls" (an ordered clause with an empty slot range is still a clause:
+\* it fixes the method's mode and is verified)
 SeqLeaves == { Lf(m, f) : m \in {"r0", "r1"}, f \in {"each", "next", "some"} } \cup { Lf("r2", "each"), Lf("r1", "stub0"), Lf("r0", "stub") }
+             \cup { LfQ("r0", "next", 0), LfQ("r0", "each", 0), LfQ("r1", "next", 2) }
 SeqOf(s) == [i \in 1..Len(s) |-> Fix(s[i])]
 \* long tuples: one offending clause pair / empty stub at chosen positions, fillers elsewhere
 Long(n, i, j, first) ==
